@@ -1055,6 +1055,41 @@ FUNCS = [
          verbatim=[("let canon = |p: &Path| std::fs::canonicalize(p).unwrap_or_else(|_| p.to_path_buf());", ""),
                    ("let mut h = blake3::Hasher::new();", "let mut h : List Nat := []"),
                    ('h.update(b"\\0");', "h := h ++ [0]")]),
+    # ---- protocol.rs: the framed codec around `Message::encode` / `decode` and `FrameHeader`
+    dict(group="codec", file="src/protocol.rs", name="write_message", sig=None, option=True, no_loop=True,
+         lean="def writeMessageGen (message : Message) : Option Bytes := Id.run do\n"
+              "  -- world: the bytes written so far\n"
+              "  let mut out : Bytes := []",
+         idents={"MAX_PAYLOAD_SIZE": "Copia.Gen.maxPayloadSize"},
+         paths={"FrameHeader::new": "FrameHeader.new"}, calls={"Ok": lambda a: "out"}, strings_plain=True,
+         methods={"msg_type": lambda r, a: f"(msgType {r})"},
+         verbatim=[("let payload = message.encode()?;", "let payload := encMsg message"),
+                   ('let payload_len = u32::try_from(payload.len()) .map_err(|e| CopiaError::ProtocolError(format!("Payload too large for u32: {e}")))?;',
+                    "if payload.length > 4294967295 then\n  return none\nlet payload_len := payload.length"),
+                   ('tracing::Span::current().record("payload_len", payload_len);', ""),
+                   ('return Err(CopiaError::ProtocolError(format!( "Payload exceeds maximum size: {payload_len} > {MAX_PAYLOAD_SIZE}" )));', "return none"),
+                   ("header.write_to(writer)?;", "out := out ++ header.encode"),
+                   ("writer.write_all(&payload)?;", "out := out ++ payload")]),
+    dict(group="codec", file="src/protocol.rs", name="read_from", sig=None, option=True, no_loop=True,
+         lean="def readHeaderGen (inp : Bytes) : Option (FrameHeader × Bytes) := Id.run do",
+         idents={"PROTOCOL_MAGIC": "Copia.Gen.protocolMagic"}, paths={}, calls={}, strings_plain=True,
+         verbatim=[("let mut buf = [0u8; Self::SIZE];", ""),
+                   ("reader.read_exact(&mut buf)?;", "let some (buf, rest) := rdN Copia.Gen.frameHeaderSize inp | return none"),
+                   ("let magic = [buf[0], buf[1], buf[2], buf[3]];", "let magic := buf.take 4"),
+                   ('return Err(CopiaError::ProtocolError(format!( "Invalid magic: expected {PROTOCOL_MAGIC:?}, got {magic:?}" )));', "return none"),
+                   ("Self::decode(&buf)", "return (FrameHeader.decode buf).map fun h => (h, rest)")]),
+    dict(group="codec", file="src/protocol.rs", name="read_message", sig=None, option=True, no_loop=True,
+         lean="def readMessageGen (utf8 : Bytes → Bool) (inp : Bytes) : Option (Message × Bytes × Nat) := Id.run do\n"
+              "  -- world: the bytes not yet read; `alloc` = the size `read_buf` is resized to",
+         paths={}, calls={}, strings_plain=True,
+         verbatim=[("let header = FrameHeader::read_from(reader)?;", "let some (header, rest) := readHeaderGen inp | return none"),
+                   ("header.validate()?;", "if !(Copia.Gen.headerValid header.magic header.version header.length) then\n  return none"),
+                   ('tracing::Span::current().record("msg_type", tracing::field::debug(header.msg_type));', ""),
+                   ('tracing::Span::current().record("payload_len", header.length);', ""),
+                   ("debug_assert_eq!(header.magic, PROTOCOL_MAGIC);", ""),
+                   ("self.read_buf.resize(header.length as usize, 0);", "let alloc := header.length"),
+                   ("reader.read_exact(&mut self.read_buf)?;", "let some (read_buf, rest2) := rdN header.length rest | return none"),
+                   ("Message::decode(&self.read_buf)", "return (decodeMsg utf8 read_buf).map fun m => (m, rest2, alloc)")]),
     dict(group="hubsync", file="src/bin/copia/hub.rs", fn="hub_sync", sig=None,
          name="hub_sync (the push loop: from the counters to the end of the `for`)",
          slice=("let (mut sent, mut skipped, mut conflicts) = (0u64, 0u64, 0u64);", "hub kept a conflict-copy\");"), slice_close=2,
@@ -1204,6 +1239,7 @@ GROUP_HEAD = {
     "hub": ("import Copia.Model.Hub", "open Copia.Hub (Comp components)"),
     "hubsync": ("import Copia.Model.HubSync", ""),
     "archive": ("", ""),
+    "codec": ("import Copia.Model.Codec\nimport Copia.Gen.Decisions", "open Copia.Codec"),
     "wire": ("import Copia.Model.Hub\nimport Copia.Model.WireSupport", "open Copia.WireSupport (FrameRes)"),
     "hubput": ("import Copia.Model.HubTrace\nimport Copia.Model.Hub", "open Copia.HubConc (Call Chunk Hash)"),
     "deliver": ("import Copia.Model.Deliver", "open Copia.Deliver (DStep)"),
@@ -1212,7 +1248,7 @@ GROUP_HEAD = {
               "open Copia.Delta Copia.DeltaSupport\nopen Copia.Checksum (Fast)"),
 }
 
-GROUPS = {"reconcile": "LoopsReconcile.lean", "plan": "LoopsPlan.lean", "bidir": "LoopsBidir.lean", "delta": "LoopsDelta.lean", "hub": "LoopsHub.lean", "hubsync": "LoopsHubSync.lean", "hubput": "LoopsHubPut.lean", "wire": "LoopsWire.lean", "archive": "LoopsArchive.lean", "crash": "LoopsCrash.lean", "deliver": "LoopsDeliver.lean"}
+GROUPS = {"reconcile": "LoopsReconcile.lean", "plan": "LoopsPlan.lean", "bidir": "LoopsBidir.lean", "delta": "LoopsDelta.lean", "hub": "LoopsHub.lean", "hubsync": "LoopsHubSync.lean", "hubput": "LoopsHubPut.lean", "wire": "LoopsWire.lean", "archive": "LoopsArchive.lean", "codec": "LoopsCodec.lean", "crash": "LoopsCrash.lean", "deliver": "LoopsDeliver.lean"}
 
 
 def translate(group):
@@ -1249,7 +1285,7 @@ def translate(group):
             lines += ["  " + x for x in f["epilogue"]]
         if t.i != len(t.t):
             raise TranslateError(f"{f['name']}: trailing tokens")
-        if t.has_while != bool(f.get("option")):
+        if t.has_while != (bool(f.get("option")) and not f.get("no_loop")):
             raise TranslateError(f"{f['name']}: `while` loops appeared or disappeared")
         L.append(f"/-- `{f['file']}::{f['name']}` -/")
         L.append(f["lean"])
